@@ -193,7 +193,7 @@ func runScenario(t *testing.T, name string) {
 	t.Fatalf("%s: %v", sc.id, err)
 }
 
-func TestKnownTrailingSlash(t *testing.T)     { runScenario(t, "slash") }
-func TestKnownMissingParent(t *testing.T)     { runScenario(t, "parent") }
-func TestKnownLexicographic(t *testing.T)     { runScenario(t, "order") }
-func TestKnownAbandonedListing(t *testing.T)  { runScenario(t, "stale") }
+func TestKnownTrailingSlash(t *testing.T)    { runScenario(t, "slash") }
+func TestKnownMissingParent(t *testing.T)    { runScenario(t, "parent") }
+func TestKnownLexicographic(t *testing.T)    { runScenario(t, "order") }
+func TestKnownAbandonedListing(t *testing.T) { runScenario(t, "stale") }
